@@ -318,8 +318,8 @@ impl Sparse<f64> {
         }
         let mut r = b.clone() - self.multiply( x );
         let mut rr = r.clone();
-        let bnrm: f64;
-        let mut err: f64 = 1.0;
+        let mut bnrm: f64;
+        let mut err: f64;
         let mut z = Vector::new( self.rows, 0.0 );
         let mut zz = Vector::new( self.rows, 0.0 );
         let mut p = Vector::new( self.rows, 0.0 );
@@ -336,6 +336,9 @@ impl Sparse<f64> {
         else {
             panic!( "Sparse matrix solve_bicg: itol must be 1 or 2." );
         }
+        if bnrm == 0.0 { bnrm = 1.0; }
+        err = z.norm_2() / bnrm;
+        if err <= tol { return Ok( 0 ); }
         let mut rho_2 = 1.0;
         let mut iter: usize = 0;
         while iter < max_iter {
